@@ -101,6 +101,7 @@ type StepSpec struct {
 	OutText       string   `json:"outText,omitempty"` // exact stdout text (C11)
 	Args          []string `json:"args,omitempty"`    // extra argv after the step id (raw YAML command text)
 	Script        string   `json:"script,omitempty"`
+	Direct        bool     `json:"direct,omitempty"` // in-process executor that calls Write on the given writers (like http/jq/mail)
 }
 
 type HandlerSpec struct {
@@ -165,6 +166,9 @@ func (s *StepSpec) yaml(ind string, cmd string) string {
 	}
 	if s.Script != "" {
 		fmt.Fprintf(&b, "%sscript: %s\n", in, yq(s.Script))
+	}
+	if s.Direct {
+		fmt.Fprintf(&b, "%sexecutor: simdirect\n", in)
 	}
 	return b.String()
 }
